@@ -23,11 +23,12 @@ import (
 // statements ran, so "skipping everything after the return" is observed directly.
 
 type c16Val struct {
-	K string // int | str | bool | fn
+	K string // int | str | bool | fn | arr
 	I int
 	S string
 	B bool
 	F *c16Fn
+	A *[]c16Val // arr: the elements (a pointer keeps c16Val comparable; arrays are only iterated, never compared)
 }
 
 func (v c16Val) Render() string {
@@ -45,6 +46,13 @@ func (v c16Val) Render() string {
 func (v c16Val) Src() string {
 	if v.K == "str" {
 		return strconv.Quote(v.S)
+	}
+	if v.K == "arr" {
+		ss := []string{}
+		for _, e := range *v.A {
+			ss = append(ss, e.Src())
+		}
+		return "[" + strings.Join(ss, ", ") + "]"
 	}
 	return v.Render()
 }
@@ -95,7 +103,7 @@ func (e *c16Expr) Src() string {
 }
 
 type c16Stmt struct {
-	T       string // ret | if | let | mark
+	T       string // ret | if | let | mark | for (N = loop variable, E = iterable, Then = body)
 	E       *c16Expr
 	N       string
 	ID      int
@@ -128,6 +136,8 @@ func c16Block(ss []*c16Stmt, ind string) string {
 			b.WriteString(ind + "let " + s.N + " = " + s.E.Src() + "\n")
 		case "mark":
 			b.WriteString(ind + "c16mark(" + strconv.Itoa(s.ID) + ")\n")
+		case "for":
+			b.WriteString(ind + "for (" + s.N + ") in " + s.E.Src() + " {\n" + c16Block(s.Then, ind+" ") + ind + "}\n")
 		case "if":
 			b.WriteString(ind + "if (" + s.E.Src() + ") {\n" + c16Block(s.Then, ind+" "))
 			for _, e := range s.Elifs {
@@ -163,8 +173,10 @@ func (e *c16Env) get(n string) (c16Val, bool) {
 }
 
 type c16Ref struct {
-	marks []int
-	steps int
+	marks     []int
+	steps     int
+	loops     int  // loop bodies the evaluation is currently inside of (within the current function activation)
+	retInLoop bool // some return was reached inside a loop body
 }
 
 type c16Stuck struct{ why string }
@@ -203,7 +215,10 @@ func (m *c16Ref) eval(e *c16Expr, env *c16Env) c16Val {
 		for i, p := range fv.F.Params {
 			c.vars[p] = args[i]
 		}
+		saved := m.loops // a loop around the CALL is not a loop around the callee's return
+		m.loops = 0
 		v, ret := m.run(fv.F.Body, c)
+		m.loops = saved
 		if !ret {
 			panic(c16Stuck{"no return reached"})
 		}
@@ -255,11 +270,29 @@ func (m *c16Ref) run(ss []*c16Stmt, env *c16Env) (c16Val, bool) {
 	for _, s := range ss {
 		switch s.T {
 		case "ret":
+			if m.loops > 0 {
+				m.retInLoop = true
+			}
 			return m.eval(s.E, env), true
 		case "let":
 			env.vars[s.N] = m.eval(s.E, env)
 		case "mark":
 			m.marks = append(m.marks, s.ID)
+		case "for":
+			it := m.eval(s.E, env)
+			if it.K != "arr" {
+				panic(c16Stuck{"for over " + it.K})
+			}
+			for _, x := range *it.A {
+				// the loop variable lives in the loop's own scope (loop bodies here have no let)
+				le := &c16Env{vars: map[string]c16Val{s.N: x}, outer: env}
+				m.loops++
+				v, ret := m.run(s.Then, le)
+				m.loops--
+				if ret { // the first return reached ends the function, wherever it is
+					return v, true
+				}
+			}
 		case "if":
 			body, taken := s.Then, m.eval(s.E, env).B
 			if !taken {
@@ -363,16 +396,22 @@ func c16Record(rep *Report, cs *c16Case, v c16Verdict) {
 		return
 	}
 	rep.Tag("FAIL")
+	for _, f := range rep.Failures { // several cases can reduce to the same one
+		if f.Case == text {
+			return
+		}
+	}
 	rep.Fail(Failure{Case: text, Kind: v.Kind, Site: v.Site, What: v.What, Extra: cs.Tmpl})
 }
 
 func init() {
 	oracles["C16"] = func(cfg Config) []*Report {
 		rep := NewReport("C16", "C16", cfg)
-		rep.Rule = "generated functions of 0-4 typed parameters (int/string/bool) whose bodies are decision chains (if / else-if / else, nested ifs, let-bound locals, returns of parameters, literals, concatenations, sums, comparisons; c16mark statements before and after returns), called with ALL tuples over {0,1,2} x {\"x\",\"y\"} x {true,false}; arguments written as literals, as caller variables named like the parameters in the same order, permuted (f(b, a)), or as expressions over them (f(b, a + 1)); the value used in an output tag, an if condition, ==, let (+ later ==), as argument of another user function and of a Go helper (which must receive the plain Go value), in string concatenation / arithmetic / negation; first-class use (stored in a variable, passed as an argument and called through a parameter, also with parameter names that collide); recursion to depth 6 (countdown, sum, factorial, string building, accumulators in both parameter orders, fibonacci, mutual recursion, let-bound intermediate); too few arguments (must not panic). Expected value and executed marks from a call-by-value reference evaluator. Every case calls a user function; non-trivial = all; distinct by case text"
+		rep.Rule = "generated functions of 0-4 typed parameters (int/string/bool) whose bodies are decision chains (if / else-if / else, nested ifs, let-bound locals, returns of parameters, literals, concatenations, sums, comparisons; c16mark statements before and after returns), called with ALL tuples over {0,1,2} x {\"x\",\"y\"} x {true,false}; arguments written as literals, as caller variables named like the parameters in the same order, permuted (f(b, a)), or as expressions over them (f(b, a + 1)); the value used in an output tag, an if condition, ==, let (+ later ==), as argument of another user function and of a Go helper (which must receive the plain Go value), in string concatenation / arithmetic / negation; first-class use (stored in a variable, passed as an argument and called through a parameter, also with parameter names that collide); recursion to depth 6 (countdown, sum, factorial, string building, accumulators in both parameter orders, fibonacci, mutual recursion, let-bound intermediate); too few arguments (must not panic); arguments that are, or contain, user function calls, in every argument position (the function itself with another tuple, another generated decision chain, identity / k-th-of-m projection functions whose other arguments differ from the outer call's, two levels deep, as operand of an argument expression; also through a stored / passed function), recursion through an argument (add(n, sum(n - 1)), f(n - 1, f(0, ..)) in first and later positions); a second call of the function after an earlier call with another tuple; loops in function bodies (for { if { return } }, for { return }, nested for, for inside if / else, two loops; arrays passed as literal / caller variable or written in the body; marks before, inside and after the loop). Expected value and executed marks from a call-by-value reference evaluator. Every case calls a user function; non-trivial = all; distinct by case text"
 		rep.Notes = append(rep.Notes,
-			"not checked (open): too many arguments; a function whose body reaches no return; text emitted inside a function body; return inside a loop inside a function; too few arguments is only required not to panic or hang",
-			"family ids are derived from the shape of the case, not from the symptom: args-evaluated-in-callee-scope = arguments mention caller variables named like parameters in another position; call-value-is-return-object = the call's value is consumed by anything other than an output tag; cases with both features are reduced to one feature when that still fails")
+			"not checked (open): too many arguments; a function whose body reaches no return; text emitted inside a function body; let inside a loop body; too few arguments is only required not to panic or hang",
+			"family ids are derived from the shape of the case, not from the symptom: args-evaluated-in-callee-scope = arguments mention caller variables named like parameters in another position; call-value-is-return-object = the call's value is consumed by anything other than an output tag; cases with both features are reduced to one feature when that still fails; argument-is-call-result = an argument of the call is (or contains) a user function call (arguments that are calls are turned back into their plain values while the case still fails); call-after-earlier-call = the function was called before with other arguments",
+			"return-inside-loop-does-not-end-function: the property says the call yields the value of the first return reached, skipping everything after it; in plush a return inside a for body only ends that iteration. Cases of the loop family in which the reference reaches a return inside a loop are reported under this one id, the others under loop-in-function-body")
 		if cfg.Arg != "" {
 			var cs c16Case
 			if err := json.Unmarshal([]byte(cfg.Arg), &cs); err != nil {
